@@ -9,11 +9,13 @@ from proto import T
 
 RULE = ('trees generated from the grammar (depth <= 4, arity 2-5, WITH pairs, same-operator nesting, redundant parentheses around '
         'single licenses and compounds, multi-word unknown licenses) rendered with operators in random case and random Unicode '
-        'blank runs, over random operator-word-free tables (name variants of keys and aliases); Spec: Licensing.parse returns exactly '
-        'the generating tree; correspondence: the same tree from the model. Exhaustive in thorough: every token string of length '
+        'blank runs, over random operator-word-free tables (name variants of keys and aliases), and (a quarter of the cases) over '
+        'tables whose names share words and contain operator words inside, with unknown licenses that are prefixes of names; Spec: '
+        'Licensing.parse returns exactly the generating tree (where every occurrence of a known name lies inside an operand meant '
+        'as a known name; otherwise only the model is compared); correspondence: the same tree from the model. Exhaustive in thorough: every token string of length '
         '<= 6 over {a, zz, and, or, with, (, )} against an independent recursive-descent reference grammar. non-trivial = depth >= 2 '
         'or a WITH pair or a redundant parenthesis; distinct by (table, text)')
-ASSUMPTIONS = ['table names contain no operator words (C04 covers names that do)']
+ASSUMPTIONS = ['for tables with operator words inside names the generating tree is the expectation only where no known name occurs across operand boundaries']
 
 UNK = ['u1', 'zed', 'q-1', 'Kx', 'Zed', 'ZED', 'kx']
 
@@ -50,8 +52,96 @@ def merge_words(toks):
     return out
 
 
+OPW = ['and', 'or', 'with']
+POOL = ['gnu', 'gpl', 'lesser', '2.0', 'bsd', 'x11', 'later', 'only', 'v2']
+
+
+def occurrences(names, words):
+    """brute force: every (start, end, name index) at which a name (a word list) occurs in `words`"""
+    out = []
+    for ni, ws in enumerate(names):
+        for i in range(len(words) - len(ws) + 1):
+            if words[i:i + len(ws)] == ws:
+                out.append((i, i + len(ws), ni))
+    return out
+
+
 class Prop(BaseProp):
+    def case_opwords(self, rng):
+        """tables whose names share words with each other and contain operator words inside; unknown licenses made of the
+        same words (so they may be proper prefixes of names). The expected tree is the generating tree whenever every
+        occurrence of a known name in the final word sequence lies inside an operand meant to be a known name."""
+        for _ in range(30):
+            pool = rng.sample(POOL, rng.randint(3, 5))
+            names = []
+            for _ in range(rng.randint(2, 5)):
+                n = rng.choice([1, 2, 2, 3, 3, 4, 5])
+                ws = [rng.choice(pool) for _ in range(n)]
+                if n >= 3 and rng.random() < 0.6:
+                    ws[rng.randint(1, n - 2)] = rng.choice(OPW)
+                names.append(ws)
+            if len(set(map(tuple, names))) < len(names):
+                continue
+            table = [['K%d' % i, [' '.join(ws)], False] for i, ws in enumerate(names)]
+            if gen.valid_table(table):
+                break
+        else:
+            table, names, pool = [], [], POOL[:3]
+
+        def atom():
+            if names and rng.random() < 0.55:
+                i = rng.randrange(len(names))
+                return {'words': names[i], 'canon': ['K%d' % i, False], 'known': True}
+            if names and rng.random() < 0.5:          # a proper prefix of a name, without operator words
+                ws = rng.choice(names)
+                k = rng.randint(1, len(ws))
+                pre = [w for w in ws[:k] if w not in OPW] or [rng.choice(pool)]
+                shown = [gen.recase(rng, w) for w in pre]
+                return {'words': pre, 'shown': shown, 'canon': [' '.join(shown), False], 'known': False}
+            ws = [rng.choice(pool + ['zq']) for _ in range(rng.choice([1, 1, 2, 3]))]
+            shown = [gen.recase(rng, w) for w in ws]
+            return {'words': ws, 'shown': shown, 'canon': [' '.join(shown), False], 'known': False}
+
+        def go(d):
+            if d == 0 or rng.random() < 0.4:
+                if rng.random() < 0.15:
+                    a, b = atom(), atom()
+                    return [a, {'op': 'with'}, b], [T('with')] + a['canon'] + b['canon']
+                a = atom()
+                return [a], [T('sym')] + a['canon']
+            op = rng.choice(['and', 'or'])
+            items, kids = [], []
+            for j in range(rng.randint(2, 3)):
+                it, t = go(d - 1)
+                if t[0] in ('and', 'or'):
+                    it = [{'p': '('}] + it + [{'p': ')'}]
+                if j:
+                    items.append({'op': op})
+                items += it
+                kids.append(t)
+            return items, [T(op)] + kids
+        items, tree = go(rng.randint(1, 3))
+        words, spans, parts = [], [], []
+        for it in items:
+            if 'op' in it:
+                words.append(it['op'])
+                parts.append(gen.recase(rng, it['op']))
+            elif 'p' in it:
+                words.append(it['p'])
+                parts.append(it['p'])
+            else:
+                if it['known']:
+                    spans.append((len(words), len(words) + len(it['words'])))
+                words += it['words']
+                parts.append(gen.blank_run(rng, simple=True).join(it.get('shown') or [gen.recase(rng, w) for w in it['words']]))
+        occ = occurrences(names, words)
+        determined = all(any(s <= i and j <= e for s, e in spans) for i, j, _ in occ)
+        text = ' '.join(parts)
+        return {'table': table, 'text': text, 'expected': tree if determined else None, 'nt': True, 'stream': 'opwords'}
+
     def case_random(self, rng):
+        if rng.random() < 0.25:
+            return self.case_opwords(rng)
         table = gen.gen_table(rng, allow_op=False)
         table = [[k, [a for a in al if '(' not in a and ')' not in a and not set(a.lower().split()) & {'and', 'or', 'with'}], ex]
                  for k, al, ex in table]
@@ -118,10 +208,13 @@ class Prop(BaseProp):
         lic = P.licensing(table)
         ip = impl.parse_c(lic, text)
         mp = impl.model_outcome_c(drv.call(T('parse'), table, False, False, False, text))
-        want = [T('ok'), case['expected']]
-        tags = ['out=' + P.err_class(ip)]
-        if ip != want:
-            return Verdict('spec', case, 'tree', impl=ip, model=want, tags=tags)
+        tags = ['out=' + P.err_class(ip), case.get('stream', 'plain')]
+        if case['expected'] is not None:
+            want = [T('ok'), case['expected']]
+            if ip != want:
+                return Verdict('spec', case, 'tree', impl=ip, model=want, tags=tags)
+        else:
+            tags.append('undetermined')
         if ip != mp:
             return Verdict('diverge', case, 'Licensing.parse', impl=ip, model=mp, tags=tags)
         return Verdict('ok', case, impl=ip, nontrivial=case.get('nt', True), tags=tags)
